@@ -92,7 +92,7 @@ fn kernighan_lin_2_impl<T>(
             }
 
             // find max gain for first part
-            let (max_pos_1, max_gain_1) = gains
+            let Some((max_pos_1, max_gain_1)) = gains
                 .iter()
                 .zip(locks.iter())
                 .zip(weights.iter())
@@ -102,7 +102,18 @@ fn kernighan_lin_2_impl<T>(
                 })
                 .map(|(idx, ((gain, _), _))| (idx, *gain))
                 .max_by(|(_, g1), (_, g2)| g1.partial_cmp(g2).unwrap())
-                .unwrap();
+            else {
+                // No free vertex left on this side.
+                break;
+            };
+            // The other side must also have a free vertex.
+            if !initial_partition
+                .iter()
+                .zip(&locks)
+                .any(|(part, locked)| *part == unique_ids[1] && !*locked)
+            {
+                break;
+            }
 
             // update gain of neighbors
             for (j, w) in adjacency.neighbors(max_pos_1) {
